@@ -720,21 +720,37 @@ func (x *extractor) findShallowCopies() {
 		}
 		return false
 	}
-	isDeepCall := func(n ast.Node) bool {
+	// isDeepCall: the node contains a recursive copy — a `.DeepCopy()` / deepCopyValue call, or a
+	// call of a function of the same package (followed two levels) whose body contains one
+	// (`deepCopyArguments(recv.Args)`, `tools.Map(xs, func(x T) T { return x.DeepCopy() })`).
+	var isDeepCall func(pkg *packages.Package, n ast.Node, depth int) bool
+	isDeepCall = func(pkg *packages.Package, n ast.Node, depth int) bool {
 		found := false
 		ast.Inspect(n, func(nd ast.Node) bool {
 			call, ok := nd.(*ast.CallExpr)
 			if !ok {
 				return !found
 			}
+			var id *ast.Ident
 			switch f := call.Fun.(type) {
 			case *ast.SelectorExpr:
 				if f.Sel.Name == "DeepCopy" {
 					found = true
 				}
+				id = f.Sel
 			case *ast.Ident:
 				if f.Name == "deepCopyValue" {
 					found = true
+				}
+				id = f
+			}
+			if !found && id != nil && depth < 2 {
+				if fo, ok := pkg.TypesInfo.Uses[id].(*types.Func); ok && fo.Pkg() != nil && fo.Pkg().Path() == pkg.PkgPath {
+					k, _ := funcKey(fo)
+					if helper := x.fns[k]; helper != nil && helper.decl.Body != nil && helper.decl.Type.Results != nil &&
+						isDeepCall(helper.pkg, helper.decl.Body, depth+1) {
+						found = true
+					}
 				}
 			}
 			return !found
@@ -772,7 +788,7 @@ func (x *extractor) findShallowCopies() {
 			deep := false
 			ast.Inspect(d.Body, func(nd ast.Node) bool {
 				if kv, ok := nd.(*ast.KeyValueExpr); ok {
-					if k, ok := kv.Key.(*ast.Ident); ok && k.Name == f.Name() && isDeepCall(kv.Value) {
+					if k, ok := kv.Key.(*ast.Ident); ok && k.Name == f.Name() && isDeepCall(m.fi.pkg, kv.Value, 0) {
 						deep = true
 					}
 				}
@@ -787,7 +803,7 @@ func (x *extractor) findShallowCopies() {
 						continue
 					}
 				}
-				if mentions(stmt, f.Name()) && isDeepCall(stmt) {
+				if mentions(stmt, f.Name()) && isDeepCall(m.fi.pkg, stmt, 0) {
 					deep = true
 				}
 			}
